@@ -342,6 +342,10 @@ func H09_pipelined() {
 	if withPublish {
 		data = append(data, specEncode(&specPkt{Typ: specPUBLISH, Topic: []byte("p"), Payload: []byte("x")})...)
 	}
+	withPing := vrtBool("ping")
+	if withPing {
+		data = append(data, specEncode(&specPkt{Typ: specPINGREQ})...)
+	}
 	withDisconnect := vrtBool("disconnect")
 	if withDisconnect {
 		data = append(data, specEncode(&specPkt{Typ: specDISCONNECT})...)
@@ -352,7 +356,16 @@ func H09_pipelined() {
 	vrtQuiesce()
 	c.peerSend(data[cut:])
 	vrtQuiesce()
-	vrtAssert("C09.pipelined_connect_accepted", vrtIsConnack(c.peerTake(), false, 0))
+	answered := c.peerTake()
+	if withPing && !withDisconnect {
+		// the CONNACK is the first packet the broker sends, the answer to the pipelined request comes behind it
+		vrtAssert("C09.pipelined_connect_accepted", vrtBytesEq(answered, []byte{0x20, 2, 0, 0, 0xD0, 0}))
+	} else if withPing {
+		// (a DISCONNECT right behind the PINGREQ may end the connection before the PINGRESP is flushed)
+		vrtAssert("C09.pipelined_connect_accepted", vrtOr(vrtBytesEq(answered, []byte{0x20, 2, 0, 0, 0xD0, 0}), vrtBytesEq(answered, []byte{0x20, 2, 0, 0})))
+	} else {
+		vrtAssert("C09.pipelined_connect_accepted", vrtIsConnack(answered, false, 0))
+	}
 	c.peerClose()
 	vrtQuiesce()
 	vrtAssert("C09.connection_closed", c.isClosed())
@@ -470,6 +483,17 @@ func H10_unsubscribe_resumed() {
 	}
 	ans := vrtExchange(c2, &specPkt{Typ: specUNSUBSCRIBE, ID: 2, Topics: [][]byte{gone}})
 	vrtAssert("C10.harness_unsuback", vrtBytesEq(ans, []byte{0xB0, 2, 0, 2}))
+	// on the resumed connection itself: the restored filter is really gone, the kept one can be re-qualified
+	vrtExchange(wit, &specPkt{Typ: specPUBLISH, Flags: 2, ID: 50, Topic: gone, Payload: []byte("0")})
+	vrtAssert("C10.unsubscribed_filter_stays_gone", len(c2.peerTake()) == 0)
+	ans = vrtExchange(c2, &specPkt{Typ: specSUBSCRIBE, ID: 3, Topics: [][]byte{kept}, QoS: []byte{1}})
+	vrtAssert("C10.harness_suback", vrtBytesEq(ans, []byte{0x90, 3, 0, 3, 1}))
+	vrtExchange(wit, &specPkt{Typ: specPUBLISH, Flags: 2, ID: 51, Topic: kept, Payload: []byte("0")})
+	gotk, okk := vrtParse(c2.peerTake())
+	vrtAssert("C10.resubscribed_restored_filter_delivers_once", okk && len(gotk) == 1)
+	if okk && len(gotk) == 1 {
+		vrtAssert("C10.restored_subscription_qos", (gotk[0].Flags>>1)&3 == 1)
+	}
 	vrtEnd(c2, vrtChoice("end2", 2))
 	wit.peerTake()
 	c3, ack3 := b.connect(vrtConnectPkt([]byte("x"), false))
